@@ -8,7 +8,9 @@ import sys
 import time
 from pathlib import Path
 
+import os
 VERIF = Path(__file__).resolve().parent.parent
+REPO = os.environ.get("VERIF_REPO", "/repo")      # a scratch worktree when seeds are replayed in a parallel copy
 
 
 def sh(cmd, timeout=3600):
@@ -30,7 +32,7 @@ def main():
             ids.append(args[i]); i += 1
     if not ids:
         ids = sorted(p.name for p in (VERIF / "seeded").iterdir() if (p / "patch.diff").exists())
-    rc, out = sh("git -C /repo status --porcelain -- tartiflette")
+    rc, out = sh("git -C %s status --porcelain -- tartiflette" % REPO)
     if out.strip():
         print("refusing: /repo has local changes:\n" + out)
         return 2
@@ -38,7 +40,7 @@ def main():
         d = VERIF / "seeded" / sid
         meta = json.loads((d / "meta.json").read_text())
         props = [meta["property"]] + [p for p in extra if p != meta["property"]]
-        rc, out = sh("git -C /repo apply %s" % (d / "patch.diff"))
+        rc, out = sh("git -C %s apply %s" % (REPO, d / "patch.diff"))
         if rc != 0:
             print(sid, "patch does not apply:", out[-300:])
             continue
@@ -61,7 +63,7 @@ def main():
                     except OSError:
                         pass
         finally:
-            sh("git -C /repo checkout -- .")
+            sh("git -C %s checkout -- ." % REPO)
             for p, blob in saved.items():
                 f = VERIF / "evidence" / (p + ".json")
                 if blob is None:
@@ -71,7 +73,7 @@ def main():
         meta["detected_by"] = {p: v for p, v in det.items() if v["exit"] != 0} or None
         meta["checks_run"] = {p: v["exit"] for p, v in det.items()}
         (d / "meta.json").write_text(json.dumps(meta, indent=1) + "\n")
-    rc, out = sh("git -C /repo status --porcelain -- tartiflette")
+    rc, out = sh("git -C %s status --porcelain -- tartiflette" % REPO)
     if out.strip():
         print("WARNING /repo not clean:", out)
     return 0
